@@ -383,3 +383,60 @@ def witness_search(tier, seed):
         if Beat(x) != x or Beat(22, 7) != Fraction(22, 7):
             return dict(input=f"Beat({x!r})", detail="not exact")
     return None
+
+
+# ---------------------------------------------------------------------------
+# thorough tier: CPython cross-check of the encoder on the functions above (a guard of the verifier, not evidence)
+
+
+def _xcases_new(tier):
+    from fractions import Fraction
+    from decimal import Decimal
+    Beat = beat_cls()
+    vals = [0, 1, -3, 7, Fraction(1, 3), Fraction(-7, 5), Fraction(95, 96), Fraction(1, 96), Fraction(-1, 96), Fraction(3, 96),
+            0.5, -0.25, 0.0104166, 0.03125, 1e-9, 123.456, Decimal("0.010416"), Decimal("-2.5"), Decimal("0.0156"), "1.5", "-0.3333", "4.010", "0.0312", " 2 ", "x", ""]
+    for v in vals:
+        yield (Beat, v)
+    for n, d in ((1, 3), (-7, 2), (5, -4), (0, 9)):
+        yield (Beat, n, d)
+
+
+def _xcases_binop(tier):
+    from fractions import Fraction
+    Beat = beat_cls()
+    As = [Beat(0), Beat(1, 3), Beat(-7, 2), Beat(95, 48), Beat(-1, 48)]
+    Bs = [0, 2, -3, Fraction(1, 7), Fraction(-5, 3), Beat(1, 2), Beat(-4, 3)]
+    for a in As:
+        for b in Bs:
+            yield (a, b)
+
+
+def _xc(name, qual, real, cases):
+    from pyvc.xcheck import EncoderCrossCheck
+    return EncoderCrossCheck(name, qual, beat_cls, real, cases)
+
+
+def _thorough_bounded():
+    import operator
+    out = [_xc("Beat.__new__", "simfile.timing.Beat.__new__", lambda cls, *a: cls(*a), _xcases_new),
+           _xc("Beat.from_str", "simfile.timing.Beat.from_str", lambda cls, s: cls.from_str(s),
+               lambda tier: [(beat_cls(), s) for s in ("1.000", "0.0104", "-3.9896", "7", "1/3", "abc", "", "1e2")]),
+           _xc("Beat.round_to_tick", "simfile.timing.Beat.round_to_tick", lambda b: b.round_to_tick(),
+               lambda tier: [(beat_cls()(n, d),) for n, d in ((1, 96), (3, 96), (-1, 96), (-3, 96), (5, 7), (1, 64), (193, 96), (0, 1))]),
+           _xc("Beat.__str__", "simfile.timing.Beat.__str__", lambda b: str(b),
+               lambda tier: [(beat_cls()(n, d),) for n, d in ((1, 3), (2, 3), (-1, 3), (1, 48), (1001, 2000), (12345, 1), (-1, 2000))])]
+    for op in ("__add__", "__sub__", "__mul__", "__truediv__", "__mod__", "__radd__", "__rsub__", "__rmul__", "__rtruediv__", "__rmod__", "__divmod__", "__rdivmod__",
+               "__floordiv__", "__rfloordiv__"):
+        if op not in vars(beat_cls()):
+            continue
+        out.append(_xc(f"Beat.{op}", f"simfile.timing.Beat.{op}", (lambda a, b, op=op: getattr(a, op)(b)), _xcases_binop))
+    for op in UNOPS:
+        out.append(_xc(f"Beat.{op}", f"simfile.timing.Beat.{op}", (lambda a, op=op: getattr(a, op)()),
+                       lambda tier: [(beat_cls()(n, d),) for n, d in ((1, 3), (-7, 2), (0, 1))]))
+    return out
+
+
+THOROUGH_BOUNDED = _thorough_bounded()
+
+from pyvc.xcheck import StringAxiomProbe   # noqa: E402
+THOROUGH_BOUNDED = THOROUGH_BOUNDED + [StringAxiomProbe()]
